@@ -1,13 +1,14 @@
 CONSTANTS
   HashMode = "real"
   Bug = "none"
-  Sweeps = {"near", "deepq", "hier", "xtwin", "xdeep", "self"}
+  Sweeps = {"near", "deepq", "hier", "xtwin", "xdeep", "self", "forms"}
   PairDepth = 2
   NearDepth = 2
   DeepDepth = 2
   HierDepth = 2
   XDepth = 1
   SelfDepth = 2
+  FormDepth = 2
   Wide = FALSE
   EmitCases = TRUE
 INIT Init
